@@ -296,14 +296,19 @@ func SubscribeWithReplay[T any](
 		}
 	}
 
-	// Load last offset for this subscription
-	lastOffset, _ := subStore.LoadOffset(ctx, subscriptionID)
+	// Load last offset for this subscription. A failing load must not be
+	// mistaken for "no saved offset": that would silently replay (and
+	// re-deliver) the whole log from the beginning.
+	lastOffset, err := subStore.LoadOffset(ctx, subscriptionID)
+	if err != nil {
+		return fmt.Errorf("load subscription offset: %w", err)
+	}
 
 	// Replay missed events
 	var eventType = reflect.TypeOf((*T)(nil)).Elem()
 	// Use consistent type naming with EventType() function
 	typeName := eventType.String()
-	err := bus.Replay(ctx, lastOffset, func(stored *StoredEvent) error {
+	err = bus.Replay(ctx, lastOffset, func(stored *StoredEvent) error {
 		// Apply upcasts if available
 		eventData, eventTypeName := stored.Data, stored.Type
 		if bus.upcastRegistry != nil {
